@@ -52,7 +52,7 @@ pub const MNEMONICS: &[&str] = &[
     "putsp", "halt", "putn", "reg", "push", "pop", "call", "rets",
 ];
 pub const DIRS: &[&str] = &[".orig", ".end", ".stringz", ".blkw", ".fill", ".break"];
-pub const WIDE: &[&str] = &["é", "ß", "→", "€", "😀", "𝄞", "\u{a0}", "\u{2028}", "\u{feff}"];
+pub const WIDE: &[&str] = &["é", "ß", "→", "€", "😀", "𝄞", "\u{a0}", "\u{2028}", "\u{feff}", "２", "٣", "²", "½", "१", "Ⅷ", "ǅ", "ﬁ"];
 
 /// signed range of an n-bit field
 fn pk(rng: &mut Rng, xs: &[&'static str]) -> &'static str {
@@ -348,6 +348,7 @@ pub fn any_token(rng: &mut Rng) -> String {
         ".breakx", "$", "%10", "(", "x1g", "0xz", "#x10", "#0x10", "xé", "0x😀", "x1é", "#é", "#1é", "r1é", "\"é", "\0",
         "r1\0", "x\0", ".blkw xFFFF", ".blkw x7FFF", ".blkw #-1", ".stringz \"\"", ".fill \"s\"", ".blkw r1", ".stringz x1",
         ".stringz lbl", "trap", "trap x25", "trap xFF", "trap x100", "trap #-1", "br #-2", "br #-300", "halt", "rets",
+        "２", "٣x", "²", "½a", "१२", "r２", "x２", "#２", "Ⅷ", "a２b",
         "65536", "4294967295", "4294967296", "18446744073709551616", "99999999999999999999999", "#4294967296",
         "x100000000", "0x10000000000000000", "340282366920938463463374607431768211456", "0000000000000000000000001",
     ];
